@@ -34,13 +34,13 @@ def make_case(i, rng, tier):
     if rng.random() < 0.15:
         inp = synth.gen_input(rng)
     else:
-        inp = common.gen_input(rng, common.target_for(i, rng))
+        inp = common.gen_input(rng, common.target_for(i, rng), huge=True)
     o = model.decode(inp["root"], inp["data"], cc=inp["cc"], enc=inp["enc"])
     if not o.ok:
         raise HarnessError("generator produced a malformed input: %s %s" % (inp["label"], o.problem))
     if not o.sizefields:
         return None
-    if enumerate_all(tier, rng) and len(o.sizefields) <= 40:
+    if enumerate_all(tier, rng) and len(o.sizefields) <= 40 and len(inp["data"]) <= 1500:
         vs = []
         for idx, _r in o.sizefields:
             for val in F.size_variants(o, idx, rng):
